@@ -79,3 +79,14 @@ pub(crate) fn prefix_bytes(p: usize, cs: &[char; 3]) -> usize {
     b
 }
 
+
+/// stands in for core::str::count::count_chars (the chunked SIMD-style counter behind `str.chars().count()`, which
+/// does not finish on symbolic text). Contract: the number of code points = bytes that are not continuation bytes.
+pub(crate) fn naive_count(s: &str) -> usize {
+    // loop-free for the <= 12 bytes of these harnesses (a loop would need a larger unwinding bound everywhere)
+    let b = s.as_bytes();
+    let l = b.len();
+    assert!(l <= 12, "count stub: harness texts hold at most 12 bytes");
+    let f = |i: usize| -> usize { if i < l && (b[i] & 0xC0) != 0x80 { 1 } else { 0 } };
+    f(0) + f(1) + f(2) + f(3) + f(4) + f(5) + f(6) + f(7) + f(8) + f(9) + f(10) + f(11)
+}
